@@ -119,6 +119,20 @@ func ssaAllFuncs(g *Gen, sp *ssa.Package) map[*ssa.Function]bool {
 	return out
 }
 
+// outRoot: where evidence/ and replay/ are written. Partial runs (-only) and experiments on modified trees (GVC_OUT)
+// must not overwrite the evidence of the registered checks.
+var partialRun bool
+
+func outRoot(verif string) string {
+	if e := os.Getenv("GVC_OUT"); e != "" {
+		return e
+	}
+	if partialRun {
+		return filepath.Join(os.TempDir(), "gvc-partial")
+	}
+	return verif
+}
+
 type funcResult struct {
 	name  string
 	con   *Contract
@@ -139,6 +153,7 @@ func cmdCheck(args []string) int {
 	keep := fs.Bool("keep", false, "keep smt files")
 	fs.Parse(args)
 	keepFiles = *keep
+	partialRun = *only != ""
 	siteCoversComplete = *tier == "thorough"
 	blockCovers = os.Getenv("GVC_BLOCKCOVERS") != ""
 	t0 := time.Now()
@@ -315,12 +330,12 @@ func report(g *Gen, prop, tier, verif string, results []*funcResult, wall, loadS
 		fmt.Println("CHECK-ERROR:", e)
 		exit = 2
 	}
-	os.MkdirAll(filepath.Join(verif, "replay"), 0o755)
+	os.MkdirAll(filepath.Join(outRoot(verif), "replay"), 0o755)
 	for _, o := range knownHit {
 		fmt.Printf("KNOWN-FINDING: property=%s %s: %s\n", prop, o.Name, known[o.Name].What)
 	}
 	for _, o := range failed {
-		rp := filepath.Join(verif, "replay", sanitizeFile(prop+"__"+o.Name)+".txt")
+		rp := filepath.Join(outRoot(verif), "replay", sanitizeFile(prop+"__"+o.Name)+".txt")
 		var sb strings.Builder
 		sb.WriteString("property: " + prop + "\n")
 		sb.WriteString("failed obligation: " + o.Name + "\nkind: " + o.Kind + "\nsource: " + o.Src + "\n")
@@ -380,9 +395,9 @@ func report(g *Gen, prop, tier, verif string, results []*funcResult, wall, loadS
 	if len(samples) == 0 {
 		ev["coverage"].(map[string]interface{})["samples"] = []interface{}{"no discharged obligation"}
 	}
-	os.MkdirAll(filepath.Join(verif, "evidence"), 0o755)
+	os.MkdirAll(filepath.Join(outRoot(verif), "evidence"), 0o755)
 	data, _ := json.MarshalIndent(ev, "", " ")
-	os.WriteFile(filepath.Join(verif, "evidence", prop+".json"), data, 0o644)
+	os.WriteFile(filepath.Join(outRoot(verif), "evidence", prop+".json"), data, 0o644)
 	fmt.Printf("property %s tier %s: %d functions, %d obligations, %d discharged, %d failed, %d known findings, covers %d/%d, wall %.1fs\n",
 		prop, tier, len(fnList), total, discharged, len(failed), len(knownHit), coversOK, covers, wall)
 	if verbose {
